@@ -1,6 +1,7 @@
 #!/usr/bin/env python3
 """Sensitivity proof: every seeded change (and the reversal of every fix: commit) must be reported
-by the check of the property it breaks.  Writes seeded/REPORT.md.   usage: sensitivity.py [ids...]"""
+by the check of the property it breaks.  Writes seeded/REPORT.md.   usage: sensitivity.py [ids...]
+(with ids: only those are re-run, the other rows of the existing report are kept)"""
 import glob, json, os, re, subprocess, sys, time
 VERIF = os.path.dirname(os.path.dirname(os.path.abspath(__file__)))
 known = json.load(open(os.path.join(VERIF, "known_findings.json")))
@@ -39,6 +40,26 @@ for cid, patch, what in benign:
         worst = max(worst, int(m.group(1)) if m else 9)
     brows.append((cid, worst, what))
     print("%-16s all five checks: worst exit=%d (expected 0)" % (cid, worst), flush=True)
+if want:
+    # partial run: keep the rows of the changes that were not re-run from the existing report
+    try:
+        prev = open(os.path.join(VERIF, "seeded", "REPORT.md")).read().split("\n## Property-preserving")
+    except OSError:
+        prev = ["", ""]
+    done = {r[0] for r in rows}
+    old_rows = []
+    for line in prev[0].splitlines():
+        c = [x.strip() for x in line.strip().strip("|").split(" | ")]
+        if len(c) >= 5 and re.match(r"(revert-|c\d\d)", c[0]) and c[0] not in done and c[2].lstrip("-").isdigit():
+            old_rows.append((c[0], c[1], int(c[2]), c[3].split("<br>") if c[3] else [], " | ".join(c[4:])))
+    order = {cid: i for i, (cid, _, _, _) in enumerate(cases)}
+    rows = sorted(rows + old_rows, key=lambda r: order.get(r[0], 10**6))
+    bdone = {b[0] for b in brows}
+    for line in (prev[1] if len(prev) > 1 else "").splitlines():
+        c = [x.strip() for x in line.strip().strip("|").split(" | ")]
+        if len(c) >= 3 and c[0].startswith("benign") and c[0] not in bdone and c[1].isdigit():
+            brows.append((c[0], int(c[1]), " | ".join(c[2:])))
+    brows.sort()
 with open(os.path.join(VERIF, "seeded", "REPORT.md"), "w") as f:
     f.write("# Sensitivity report (written by tools/sensitivity.py)\n\nEach change is applied to a scratch worktree of /repo; the quick-tier generator of the property's check is run\n(2000 runs, C23: 300 histories) against it. exit 1 = caught.\n\n| change | property | check exit | first signatures | what it breaks |\n|---|---|---|---|---|\n")
     for cid, prop, ex, sigs, what in rows:
